@@ -5,3 +5,4 @@ from . import util, relative
 from . import lemmas
 from . import message
 from . import absolute
+from . import sequence
